@@ -65,7 +65,7 @@ def ConstructEq (o : Opts) (x y : Construct) : Prop :=
   ∧ (hasBoundsAPI x.cls = true →
        x.geometry = y.geometry ∧ OptRel (SubEq o) x.bounds y.bounds
        ∧ OptRel (SubEq o) x.interiorRing y.interiorRing)
-  ∧ (x.cls = clsMeasure → x.measure = y.measure)
+  ∧ (hasTypeTag x.cls = true → x.measure = y.measure)
 
 /-- Cell methods on their own (axes are interpreted by the containing field only). -/
 def CellMethodEq (close : Int → Int → Bool) (x y : CellMethod) : Prop :=
